@@ -49,7 +49,7 @@ struct Life {
    std::map<const void*, std::string> tags;          // how each address was obtained (first route)
    void addr(const void* p, const std::string& how) { addrs.push_back(p); tags.emplace(p, how); }
    std::vector<std::pair<std::uint32_t, int>> ticks;     // (ticket, threads inside at that moment)
-   long long api_batches = 0, shadow_fails = 0, printed = 0, mirror_requests = 0, first_words_oversize = 0, names_outside_the_basis_asked = 0;
+   long long api_batches = 0, shadow_fails = 0, printed = 0, mirror_requests = 0, first_words_oversize = 0, names_outside_the_basis_asked = 0, deep_expression_nests = 0;
    std::vector<std::string> mirror_fails;
 };
 
@@ -237,6 +237,17 @@ void run_life(const LifeSpec& spec, Life& L)
       tr << "nest:" << spec.nest << "\n" << os.str();
       L.printed += (long long)os.str().size();
    }
+   // (e') an expression nested 150..250 operators deep in which every level needs parentheses (a sum inside a product), printed six
+   //      times: several threads are inside deep expression prints at the same moment; each prints what it prints alone
+   if (spec.nest > 0) {
+      const int xdepth = 150 + (spec.nest * 13) % 101;
+      const Expr* e = lex.make_id_expr(lex.get_identifier(u8"x"));
+      for (int d = 0; d < xdepth; ++d) { e = lex.make_mul(*lex.make_plus(*e, *lex.make_literal(CL.int_type(), u8"1")), *lex.make_literal(CL.int_type(), u8"2")); if (d % 16 == 0) T.tick(); }
+      std::ostringstream os;
+      for (int k = 0; k < 6; ++k) { Printer pp(CL, os); try { pp << xpr_expr(*e); } catch (const std::exception& ex) { os << "<<exception " << ex.what() << ">>"; } os << "\n"; T.tick(); }
+      tr << "xnest:" << xdepth << "\n" << os.str();
+      L.printed += (long long)os.str().size(); ++L.deep_expression_nests;
+   }
    if (first_word) {
       auto v = first_word->characters(); std::size_t good = 0; for (auto ch : v) good += (ch == u8'Q');
       tr << "first:" << (v.size() == first_word_size) << (good == first_word_size) << (&lex.get_string(v) == first_word) << "\n";
@@ -346,7 +357,7 @@ static void body(Ctx& C)
          const auto& want = ref[std::size_t(assign[std::size_t(t)])];
          C.count("lives_on_threads"); C.count("api_batches", L.api_batches); C.count("printed_bytes", L.printed);
          C.eval(hash_mix(hash_mix(specs[std::size_t(assign[std::size_t(t)])].seed, std::uint64_t(T)), std::uint64_t(t)));
-         C.count("mirror_requests", L.mirror_requests); C.count("lives_whose_first_word_is_oversize", L.first_words_oversize); C.count("specifier_and_qualifier_names_asked_concurrently", L.names_outside_the_basis_asked);
+         C.count("mirror_requests", L.mirror_requests); C.count("lives_whose_first_word_is_oversize", L.first_words_oversize); C.count("specifier_and_qualifier_names_asked_concurrently", L.names_outside_the_basis_asked); C.count("deep_expression_nests_printed_concurrently", L.deep_expression_nests);
          for (auto& mf : L.mirror_fails) C.viol("successor-lexicon-not-alone:" + mf.substr(0, mf.find(':', 11)), "a Lexicon built where an earlier Lexicon of the same thread had lived did not behave as if alone: " + mf);
          if (L.shadow_fails) C.viol("shadow-fails-under-concurrency", "a factory-built node did not report its operands while other Lexicons were in use on other threads");
          if (L.trace != want) {
@@ -394,7 +405,7 @@ static void body(Ctx& C)
    }
    C.count("shared_addresses_checked", sharing_checked); C.count("shared_addresses_that_are_constants", shared_constants);
    C.count("api_ticks", total_ticks); C.count("api_ticks_with_two_or_more_threads_inside", overlap_ticks); C.count("thread_alternations_in_ticket_order", alternations);
-   for (auto k : { "rounds", "lives_on_threads", "api_batches", "printed_bytes", "shared_addresses_checked", "rounds_with_sharing_check", "rounds_destroying_while_others_construct", "trace_bytes_compared", "rounds_reference_before_threads", "rounds_threads_before_reference", "mirror_requests", "lives_whose_first_word_is_oversize", "specifier_and_qualifier_names_asked_concurrently" }) C.need(k);
+   for (auto k : { "rounds", "lives_on_threads", "api_batches", "printed_bytes", "shared_addresses_checked", "rounds_with_sharing_check", "rounds_destroying_while_others_construct", "trace_bytes_compared", "rounds_reference_before_threads", "rounds_threads_before_reference", "mirror_requests", "lives_whose_first_word_is_oversize", "specifier_and_qualifier_names_asked_concurrently", "deep_expression_nests_printed_concurrently" }) C.need(k);
    C.need("api_ticks_with_two_or_more_threads_inside", 100); C.need("thread_alternations_in_ticket_order", 100);
 }
 
